@@ -16,6 +16,7 @@ import (
 	"time"
 
 	"github.com/pingcap/failpoint"
+	"github.com/pingcap/kvproto/pkg/errorpb"
 	"github.com/pingcap/kvproto/pkg/kvrpcpb"
 	"github.com/tikv/client-go/v2/kv"
 	"github.com/tikv/client-go/v2/tikv"
@@ -180,9 +181,55 @@ type Env struct {
 	PushMu    sync.Mutex
 	PushReads []PushRead
 
+	// Pick varies seed/rotation-dependent choices of a companion (which lock the region splits at)
+	Pick int
+	// OverwriteBeforeGC (gc-split companion): keys another client overwrites after the locks expired and before the
+	// GC pass takes its safe point; DataGC: once that pass has reported success the stores drop the versions below
+	// its safe point (what a GC worker does next - it relies on "no lock below the safe point is left")
+	OverwriteBeforeGC []string
+	DataGC            bool
+	// DataGCDone: a data GC ran on at least one region (delete tombstones and overwritten versions below the safe
+	// point are gone from the MVCC truth - legitimately)
+	DataGCDone bool
+	// Overwritten: keys that carry a newer committed value of another client (their visible state no longer tells
+	// the victim's outcome)
+	Overwritten map[string]string
+
+	covMu sync.Mutex
+	// Cov counts what the companions actually did (coverage counters for the report)
+	Cov map[string]int
+	// Extra holds problems found by the recovery procedure itself (GC contract)
+	Extra []Problem
+
 	cancelMu     sync.Mutex
 	cancelCommit context.CancelFunc
 	blocker      *transaction.KVTxn
+}
+
+func (e *Env) cov(name string) {
+	e.covMu.Lock()
+	if e.Cov == nil {
+		e.Cov = map[string]int{}
+	}
+	e.Cov[name]++
+	e.covMu.Unlock()
+}
+
+func (e *Env) extra(sig, f string, a ...any) {
+	e.covMu.Lock()
+	e.Extra = append(e.Extra, Problem{sig, fmt.Sprintf(f, a...)})
+	e.covMu.Unlock()
+}
+
+// CovCounts returns a copy of the coverage counters of the companions.
+func (e *Env) CovCounts() map[string]int {
+	e.covMu.Lock()
+	defer e.covMu.Unlock()
+	out := map[string]int{}
+	for k, v := range e.Cov {
+		out[k] = v
+	}
+	return out
 }
 
 type envCtxKey struct{}
@@ -401,11 +448,18 @@ const (
 	CompLocker                      // a pessimistic transaction locks the keys first (runs into the locks as a writer), then rolls back
 	CompGCFirst                     // the GC pass meets the locks first, the readers come afterwards
 	CompMoveLeader                  // the leaders of the keys' regions move before anybody looks
+	// CompGCSplit: the GC pass meets the locks first, and the region it works on splits between two of the locks it
+	// has just scanned - after its ScanLock was answered and before its batch ResolveLock request arrives
+	CompGCSplit
+	// CompResolverRegionErr: the region a resolver request of the recovering reader goes to changes while that
+	// request is on the wire (first CheckTxnStatus / CheckSecondaryLocks / ResolveLock / PessimisticRollback each:
+	// a split between the request's keys, or next to its key; the resolver's region cache is stale at that moment)
+	CompResolverRegionErr
 	NCompanions
 )
 
 func (c Companion) String() string {
-	return [...]string{"none", "split", "warm-reader", "two-readers", "locker", "gc-first", "move-leader"}[c]
+	return [...]string{"none", "split", "warm-reader", "two-readers", "locker", "gc-first", "move-leader", "gc-split", "resolver-region-error"}[c]
 }
 
 // Recover performs the bounded recovery procedure of C02/C03 (without companion).
@@ -450,6 +504,7 @@ func (e *Env) recoverWith(keys []string, earlier []uint64, comp Companion) ([]Ob
 		}
 	}
 	ctx := context.Background()
+	var lastSafePoint uint64
 	gcPass := func() error {
 		sp, err := obs.Store.CurrentTimestamp("global")
 		if err != nil {
@@ -463,11 +518,141 @@ func (e *Env) recoverWith(keys []string, earlier []uint64, comp Companion) ([]Ob
 		if gcErr != nil {
 			return fmt.Errorf("gc resolve: %w", gcErr)
 		}
+		lastSafePoint = sp
+		// the contract of the pass (what the recovery of everybody else and the data GC that follows rely on): when
+		// it reports success no lock with a start ts up to its safe point is left.  Nothing writes locks during
+		// recovery (the victim is dead or has drained, late deliveries are done), so the MVCC truth decides.
+		locks, err := u.ScanLocksTruth()
+		if err != nil {
+			return fmt.Errorf("gc contract: scan locks: %w", err)
+		}
+		for _, l := range locks {
+			if l.StartTS <= sp {
+				e.extra("gc-pass-left-lock-below-safepoint", "the GC lock-resolution pass for safe point %d reported success (companion %s), yet a lock with start ts %d remains on %q (type %s, primary %q)", sp, comp, l.StartTS, l.Key, l.Type, l.Primary)
+			}
+		}
 		return nil
+	}
+	// dataGC: the stores drop what is invisible at the safe point of the last successful pass (mocktikv; unistore
+	// only records the safe point for a later compaction)
+	dataGC := func() {
+		if lastSafePoint == 0 || u.Backend != uni.Mock {
+			return
+		}
+		bo := tikv.NewBackofferWithVars(ctx, 20000, nil)
+		var start []byte
+		for i := 0; i < 64; i++ {
+			loc, err := obs.Store.GetRegionCache().LocateKey(bo, start)
+			if err != nil {
+				e.cov("data_gc_error")
+				return
+			}
+			resp, err := obs.Store.SendReq(bo, tikvrpc.NewRequest(tikvrpc.CmdGC, &kvrpcpb.GCRequest{SafePoint: lastSafePoint}), loc.Region, 10*time.Second)
+			if err != nil {
+				e.cov("data_gc_error")
+				return
+			}
+			if re, _ := resp.GetRegionError(); re != nil {
+				continue // the sender has refreshed the region
+			}
+			if gr, ok := resp.Resp.(*kvrpcpb.GCResponse); ok && gr.Error != nil {
+				e.cov("data_gc_refused_by_store")
+			} else {
+				e.cov("data_gc_regions")
+				e.DataGCDone = true
+			}
+			if len(loc.EndKey) == 0 {
+				return
+			}
+			start = loc.EndKey
+		}
 	}
 	switch comp {
 	case CompGCFirst:
 		if err := gcPass(); err != nil {
+			return nil, windows, err
+		}
+	case CompGCSplit:
+		if len(e.OverwriteBeforeGC) > 0 {
+			// somebody overwrites keys of the dead transaction (meeting, and resolving, whatever lock is on them)
+			// before the GC worker takes its safe point
+			wr, err := u.NewClient()
+			if err != nil {
+				return nil, nil, err
+			}
+			txn, err := wr.Begin()
+			if err != nil {
+				return nil, nil, err
+			}
+			ow := map[string]string{}
+			for _, k := range e.OverwriteBeforeGC {
+				ow[k] = "newer-" + k
+				if err := txn.Set([]byte(k), []byte(ow[k])); err != nil {
+					return nil, nil, err
+				}
+			}
+			if err := txn.Commit(ctx); err != nil {
+				return nil, nil, fmt.Errorf("overwrite before gc: %w", err)
+			}
+			u.Drain()
+			e.Overwritten = ow
+			e.cov("gc_split_overwrites")
+		}
+		// the split: when the pass sends a batch ResolveLock, the region it scanned splits between two of the
+		// locks the ScanLock answer listed (one region per pass; a region with a single lock splits next to it)
+		var done atomic.Bool
+		tried := map[uint64]bool{}
+		var mu sync.Mutex
+		obs.Net.SetDecider(func(c *uni.Call) uni.Action {
+			r, ok := c.Req.(*kvrpcpb.ResolveLockRequest)
+			if !ok || len(r.TxnInfos) == 0 || done.Load() {
+				return uni.Action{}
+			}
+			mu.Lock()
+			defer mu.Unlock()
+			if tried[c.RegionID] {
+				return uni.Action{}
+			}
+			tried[c.RegionID] = true
+			var scanned [][]byte
+			cs := u.Log.Calls()
+			for i := len(cs) - 1; i >= 0; i-- {
+				sc := &cs[i]
+				if sc.Client != c.Client || sc.Cmd != tikvrpc.CmdScanLock || sc.RetSeq == 0 || sc.RegionID != c.RegionID {
+					continue
+				}
+				if sr, ok := sc.Resp.(*kvrpcpb.ScanLockResponse); ok {
+					for _, l := range sr.Locks {
+						scanned = append(scanned, l.Key)
+					}
+				}
+				break
+			}
+			switch {
+			case len(scanned) >= 2:
+				j := 1 + e.Pick%(len(scanned)-1)
+				if !bytes.Equal(scanned[j], scanned[j-1]) && u.SplitAt(scanned[j]) {
+					done.Store(true)
+					e.cov("gc_split_between_scanned_locks")
+				}
+			case len(scanned) == 1:
+				if u.SplitAt(append(append([]byte(nil), scanned[0]...), 0)) {
+					e.cov("gc_split_next_to_single_lock")
+				}
+			}
+			return uni.Action{}
+		})
+		err := gcPass()
+		obs.Net.SetDecider(nil)
+		if err != nil {
+			return nil, windows, err
+		}
+		if e.DataGC {
+			dataGC()
+			earlier = nil // snapshots below the safe point of a data GC are not readable any more
+		}
+		// whoever reads afterwards is not the GC worker: a client with a resolver (transaction status cache) of its own
+		if obs, err = u.NewClient(); err != nil {
 			return nil, windows, err
 		}
 	case CompLocker:
@@ -502,6 +687,10 @@ func (e *Env) recoverWith(keys []string, earlier []uint64, comp Companion) ([]Ob
 	now, err := obs.Store.CurrentTimestamp("global")
 	if err != nil {
 		return nil, windows, err
+	}
+	if comp == CompResolverRegionErr {
+		e.staleResolver(obs)
+		defer obs.Net.SetDecider(nil)
 	}
 	var second chan struct{}
 	if comp == CompTwoReaders {
@@ -585,6 +774,56 @@ func (e *Env) recoverWith(keys []string, earlier []uint64, comp Companion) ([]Ob
 	return out, windows, nil
 }
 
+// staleResolver makes the region cache of a recovering client stale exactly when it matters: the first request of
+// each resolver command it sends finds its region changed under it (a split between the keys the request names, or
+// next to its only key; where the layout cannot split any more the store's answer is replaced by an EpochNotMatch).
+func (e *Env) staleResolver(cl *uni.ClientStore) {
+	u := e.U
+	var mu sync.Mutex
+	seen := map[tikvrpc.CmdType]bool{}
+	cl.Net.SetDecider(func(c *uni.Call) uni.Action {
+		var keys [][]byte
+		switch r := c.Req.(type) {
+		case *kvrpcpb.CheckTxnStatusRequest:
+			keys = [][]byte{r.PrimaryKey}
+		case *kvrpcpb.CheckSecondaryLocksRequest:
+			keys = r.Keys
+		case *kvrpcpb.ResolveLockRequest:
+			if len(r.TxnInfos) > 0 {
+				return uni.Action{} // the GC pass's batch form has a companion of its own
+			}
+			keys = r.Keys
+		case *kvrpcpb.PessimisticRollbackRequest:
+			keys = r.Keys
+		default:
+			return uni.Action{}
+		}
+		mu.Lock()
+		defer mu.Unlock()
+		if seen[c.Cmd] {
+			return uni.Action{}
+		}
+		seen[c.Cmd] = true
+		sorted := append([][]byte(nil), keys...)
+		sort.Slice(sorted, func(i, j int) bool { return bytes.Compare(sorted[i], sorted[j]) < 0 })
+		split := false
+		if len(sorted) >= 2 {
+			j := 1 + e.Pick%(len(sorted)-1)
+			split = u.SplitAt(sorted[j])
+		}
+		if !split && len(sorted) >= 1 {
+			split = u.SplitAt(append(append([]byte(nil), sorted[len(sorted)-1]...), 0))
+		}
+		e.cov("resolver_region_error:" + c.Cmd.String())
+		if split {
+			// the request carries the epoch from before the split: the store itself answers EpochNotMatch
+			e.cov("resolver_region_error_by_real_split")
+			return uni.Action{}
+		}
+		return uni.Action{Kind: uni.RegionErr, RegErr: &errorpb.Error{Message: "injected at recovery", EpochNotMatch: &errorpb.EpochNotMatch{}}}
+	})
+}
+
 // Verdict of the oracles for one execution.
 type Verdict struct {
 	Committed bool
@@ -618,6 +857,11 @@ func (e *Env) Judge(rec *work.TxnRec, obs []Observation, ackKnown bool) (*Verdic
 		if !ok {
 			continue
 		}
+		if _, ow := e.Overwritten[m.Key]; ow {
+			// another client's newer value is on top (and the data GC may have dropped the victim's version): the key
+			// no longer shows the victim's outcome; locks and rollback records on it are still audited below
+			continue
+		}
 		switch be.Kind {
 		case work.BufPut:
 			vis[m.Key] = want{newVal: be.Val}
@@ -629,6 +873,9 @@ func (e *Env) Judge(rec *work.TxnRec, obs []Observation, ackKnown bool) (*Verdic
 			}
 		}
 	}
+	e.covMu.Lock()
+	v.Problems = append(v.Problems, e.Extra...)
+	e.covMu.Unlock()
 	// (a) all-or-none at every probed snapshot
 	for _, o := range obs {
 		if o.Err != "" {
@@ -668,12 +915,16 @@ func (e *Env) Judge(rec *work.TxnRec, obs []Observation, ackKnown bool) (*Verdic
 	}
 	var with, without []string
 	cts := map[uint64]bool{}
-	for k := range vis {
+	for k, wnt := range vis {
 		kt := truth.Keys[k]
 		if w := kt.WriteOf(rec.StartTS); w != nil && (w.Type == kvrpcpb.Op_Put || w.Type == kvrpcpb.Op_Del) {
 			with = append(with, k)
 			cts[w.CommitTS] = true
 			v.CommitTS = w.CommitTS
+		} else if e.DataGCDone && wnt.deleted {
+			// a committed delete below the safe point leaves no record after the data GC: the key's record says
+			// nothing about the outcome any more (its visible state was judged above)
+			continue
 		} else {
 			without = append(without, k)
 		}
